@@ -282,7 +282,7 @@ fn build_corpus(codec: &Codec, args: &Args) -> (Vec<Input>, u64) {
     small.sort_by_key(Vec::len);
     // 2. truncation at every offset
     for v in small.iter().rev().take(args.by_tier(2, 8)).chain(small.iter().take(1)) {
-        let step = (v.len() / 1500).max(1);
+        let step = (v.len() / args.by_tier(300, 1500)).max(1);
         for cut in (0..v.len()).step_by(step) {
             inputs.push(Input { origin: "truncated", bytes: v[..cut].to_vec() });
         }
@@ -399,25 +399,35 @@ fn panic_slug(stderr: &str) -> String {
     format!("{file}:{}", words.join("-"))
 }
 
+/// Run a throw-away batch (confirmation / bisection / replay).
 fn run_child(bin: &Path, decoder: &str, inputs: &[&[u8]], scratch: &Scratch, tag: &str, timeout: Duration) -> ChildRun {
     let batch = scratch.path().join(format!("{tag}.batch"));
+    if let Err(e) = child::write_batch(&batch, inputs) {
+        return ChildRun { done: vec![None; inputs.len()], crashed_at: None, failure: Some(Failure::Harness(format!("write batch: {e}"))), stderr_tail: String::new() };
+    }
+    let r = run_child_file(bin, decoder, &batch, inputs.len(), 0, &[], scratch, tag, timeout);
+    let _ = std::fs::remove_file(&batch);
+    r
+}
+
+/// Run inputs `from..` (minus `skip`) of an already written batch file.
+#[allow(clippy::too_many_arguments)]
+fn run_child_file(bin: &Path, decoder: &str, batch: &Path, n_inputs: usize, from: usize, skip: &[usize], scratch: &Scratch, tag: &str, timeout: Duration) -> ChildRun {
     let out = scratch.path().join(format!("{tag}.out"));
     let errf = scratch.path().join(format!("{tag}.err"));
     let _ = std::fs::remove_file(&out);
-    let mut run = ChildRun { done: vec![None; inputs.len()], crashed_at: None, failure: None, stderr_tail: String::new() };
-    if let Err(e) = child::write_batch(&batch, inputs) {
-        run.failure = Some(Failure::Harness(format!("write batch: {e}")));
-        return run;
-    }
+    let mut run = ChildRun { done: vec![None; n_inputs], crashed_at: None, failure: None, stderr_tail: String::new() };
     let Ok(errfile) = std::fs::File::create(&errf) else {
         run.failure = Some(Failure::Harness("create stderr file".into()));
         return run;
     };
     let spawned = Command::new(bin)
         .args(["--child", "1", "--decoder", decoder, "--batch"])
-        .arg(&batch)
+        .arg(batch)
         .arg("--out")
         .arg(&out)
+        .args(["--from", &from.to_string()])
+        .args(if skip.is_empty() { vec![] } else { vec!["--skip".to_owned(), skip.iter().map(ToString::to_string).collect::<Vec<_>>().join(",")] })
         .env("RUST_BACKTRACE", "0")
         .stdin(Stdio::null())
         .stdout(Stdio::null())
@@ -474,7 +484,6 @@ fn run_child(bin: &Path, decoder: &str, inputs: &[&[u8]], scratch: &Scratch, tag
             _ => {}
         }
     }
-    let _ = std::fs::remove_file(&batch);
     let _ = std::fs::remove_file(&out);
     let _ = std::fs::remove_file(&errf);
     if let Some(k) = kernel_fail {
@@ -554,154 +563,211 @@ fn threshold(len: usize) -> u64 {
     ALLOC_BASE + ALLOC_SLOPE * len as u64
 }
 
+/// Run every input of `inputs` (minus `skip`) through `codec` in children of `lane.bin`.
 #[allow(clippy::too_many_arguments)]
-fn process_batch(codec: &Codec, lane: &Lane<'_>, inputs: &[Input], scratch: &Scratch, tag: &str, rep: &mut Report, st: &mut stats::Local, failed_idx: &mut Vec<usize>, skip: &[usize]) {
-    let idx: Vec<usize> = (0..inputs.len()).filter(|i| !skip.contains(i)).collect();
-    let mut start = 0usize;
-    let mut confirmations: std::collections::BTreeMap<String, u32> = std::collections::BTreeMap::new();
-    let suffix = if lane.name == "release" { String::new() } else { format!(":{}-profile", lane.name) };
-    while start < idx.len() {
-        let slice: Vec<&[u8]> = idx[start..].iter().map(|i| inputs[*i].bytes.as_slice()).collect();
-        let run = run_child(lane.bin, codec.name, &slice, scratch, tag, Duration::from_secs(180));
-        // completed calls
-        for (k, d) in run.done.iter().enumerate() {
-            let Some(d) = d else { continue };
-            let inp = &inputs[idx[start + k]];
-            rep.eval();
-            st.add(&format!("{}:calls", lane.name), 1);
-            st.add(&format!("inputs_{}", inp.origin), 1);
-            if d.ok {
-                st.add("returned_ok", 1);
-            } else {
-                st.add("returned_err", 1);
-                st.add(&format!("err:{}", d.label), 1);
-            }
-            st.max("max_call_micros", d.micros);
-            st.max("max_peak_heap_bytes", d.peak);
-            if inp.origin == "valid" && !inp.bytes.is_empty() {
-                st.max("max_alloc_ratio_valid_x100", d.peak * 100 / inp.bytes.len() as u64);
-            }
-            if !inp.bytes.is_empty() {
-                st.max("max_alloc_ratio_any_x100", d.peak * 100 / inp.bytes.len() as u64);
-            }
-            let mut key = codec.name.as_bytes().to_vec();
-            key.push(0);
-            key.extend_from_slice(&inp.bytes);
-            // non-trivial: the call got past the first gate (accepted, or a *different* error than the plain EOF/magic one is not knowable here)
-            // ⇒ count distinct inputs that were fully processed by the real decoder in an isolated child
-            rep.nontrivial(&key);
-            if d.peak > threshold(inp.bytes.len()) {
-                let class = input_class(codec, &inp.bytes);
-                st.add("alloc_ratio_violations", 1);
-                failed_idx.push(idx[start + k]);
-                rep.violation(
-                    &format!("C13:{}:alloc-ratio:{class}{suffix}", codec.name),
-                    &format!(
-                        "{}: a call on a {}-byte {} input returned {} but held {} bytes of live heap at peak (limit 1 MiB + 256×len = {}); input head {}",
-                        codec.name,
-                        inp.bytes.len(),
-                        inp.origin,
-                        if d.ok { "Ok" } else { "Err" },
-                        d.peak,
-                        threshold(inp.bytes.len()),
-                        hex(&inp.bytes[..inp.bytes.len().min(48)])
-                    ),
-                    json!({"mode": "c13", "decoder": codec.name, "lane": lane.name, "failure": "alloc-ratio", "class": class, "inputs_hex": [hex(&inp.bytes)]}),
-                );
-            }
-            if rep.wants_sample() && (start + k) % 397 == 11 {
-                rep.sample(json!({"decoder": codec.name, "lane": lane.name, "origin": inp.origin, "len": inp.bytes.len(), "head_hex": hex(&inp.bytes[..inp.bytes.len().min(32)]), "result": if d.ok {"ok".to_owned()} else {format!("err:{}", d.label)}, "peak_heap": d.peak, "micros": d.micros}));
-            }
+fn process_decoder(codec: &Codec, lane: &Lane<'_>, inputs: &[Input], scratch: &Scratch, tag: &str, rep: &mut Report, st: &mut stats::Local, failed_idx: &mut Vec<usize>, skip: &[usize], budget: &Budget) -> bool {
+    let skipset: std::collections::BTreeSet<usize> = skip.iter().copied().collect();
+    let classes: Vec<&'static str> = inputs.iter().map(|i| input_class(codec, &i.bytes)).collect();
+    // batch files: small inputs together, big ones in groups of <= 4 MiB
+    let mut groups: Vec<Vec<usize>> = Vec::new();
+    let mut cur: Vec<usize> = Vec::new();
+    let mut cur_bytes = 0usize;
+    let mut bigs: Vec<usize> = Vec::new();
+    for (i, inp) in inputs.iter().enumerate() {
+        if skipset.contains(&i) {
+            continue;
         }
-        let Some(failure) = run.failure else { break };
-        match (&failure, run.crashed_at) {
-            (Failure::Harness(why), _) => {
-                rep.inconclusive(&format!("{} [{}]: child harness error: {}", codec.name, lane.name, why.chars().take(160).collect::<String>()));
-                // skip the input in flight, if any, and go on
-                match run.crashed_at {
-                    Some(k) => start += k + 1,
-                    None => break,
-                }
-            }
-            (Failure::Watchdog, at) => {
-                rep.inconclusive(&format!("{} [{}]: wall-clock watchdog (180 s per child) fired — no verdict for the input in flight", codec.name, lane.name));
-                st.add("watchdog_kills", 1);
-                match at {
-                    Some(k) => start += k + 1,
-                    None => break,
-                }
-            }
-            (_, None) => break,
-            (_, Some(k)) => {
-                let gi = idx[start + k];
-                let inp = &inputs[gi];
-                let fkey = failure_key(&failure);
-                st.add(&format!("crash:{}", fkey.split(':').next().unwrap_or("?")), 1);
-                failed_idx.push(gi);
-                rep.eval();
-                let class = input_class(codec, &inp.bytes);
-                let sig = format!("C13:{}:{fkey}:{class}{suffix}", codec.name);
-                // pin it to the single input in a fresh child (skip once a signature was confirmed 3×)
-                let seen = confirmations.entry(sig.clone()).or_insert(0);
-                let mut replay_inputs = vec![hex(&inp.bytes)];
-                let mut confirmed = true;
-                if *seen < 3 {
-                    let solo = run_child(lane.bin, codec.name, &[inp.bytes.as_slice()], scratch, &format!("{tag}s"), Duration::from_secs(120));
-                    let same = solo.failure.as_ref().map(failure_key) == Some(fkey.clone());
-                    if same {
-                        *seen += 1;
-                    } else {
-                        // state-dependent: shrink the prefix that is needed (suffix-minimisation by bisection)
-                        confirmed = false;
-                        let (mut lo, mut hi) = (0usize, k); // smallest j such that [j..=k] still crashes lies in lo..=hi
-                        let crashes = |j: usize| -> bool {
-                            let sl: Vec<&[u8]> = idx[start + j..=start + k].iter().map(|i| inputs[*i].bytes.as_slice()).collect();
-                            let r = run_child(lane.bin, codec.name, &sl, scratch, &format!("{tag}b"), Duration::from_secs(120));
-                            r.failure.as_ref().map(failure_key) == Some(fkey.clone())
-                        };
-                        if crashes(0) {
-                            while lo < hi {
-                                let mid = (lo + hi + 1) / 2;
-                                if crashes(mid) {
-                                    lo = mid;
-                                } else {
-                                    hi = mid - 1;
-                                }
-                            }
-                            replay_inputs = idx[start + lo..=start + k].iter().map(|i| hex(&inputs[*i].bytes)).collect();
-                            confirmed = true;
-                            st.add("state_dependent_crashes", 1);
-                        }
-                    }
-                }
-                if confirmed {
-                    let detail = match &failure {
-                        Failure::AllocAbort(n) => format!("allocation request of {n} bytes (live heap would exceed 2 GiB) ⇒ allocation failure abort"),
-                        Failure::StackOverflow => "stack overflow (8 MiB decode thread) ⇒ SIGABRT".to_owned(),
-                        Failure::Panic(s) => format!("panic at {s} ⇒ exit 101"),
-                        other => format!("{other:?}"),
-                    };
-                    rep.violation(
-                        &sig,
-                        &format!(
-                            "{} [{} build]: {} on a {}-byte {} input (class {class}); input head {}; stderr tail: {}",
-                            codec.name,
-                            lane.name,
-                            detail,
-                            inp.bytes.len(),
-                            inp.origin,
-                            hex(&inp.bytes[..inp.bytes.len().min(48)]),
-                            run.stderr_tail.lines().rev().take(3).collect::<Vec<_>>().join(" | ").chars().take(300).collect::<String>()
-                        ),
-                        json!({"mode": "c13", "decoder": codec.name, "lane": lane.name, "failure": fkey, "class": class, "origin": inp.origin, "inputs_hex": replay_inputs}),
-                    );
-                } else {
-                    rep.inconclusive(&format!("{} [{}]: a child died ({fkey}) but neither the single input nor the batch prefix reproduces it", codec.name, lane.name));
-                }
-                start += k + 1;
-            }
+        if inp.bytes.len() >= 64 << 10 {
+            bigs.push(i);
+            continue;
+        }
+        cur.push(i);
+        cur_bytes += inp.bytes.len();
+        if cur.len() >= 512 || cur_bytes >= 4 << 20 {
+            groups.push(std::mem::take(&mut cur));
+            cur_bytes = 0;
         }
     }
+    if !cur.is_empty() {
+        groups.push(cur);
+    }
+    let mut cur: Vec<usize> = Vec::new();
+    let mut cur_bytes = 0usize;
+    for i in bigs {
+        cur.push(i);
+        cur_bytes += inputs[i].bytes.len();
+        if cur_bytes >= 3 << 20 {
+            groups.push(std::mem::take(&mut cur));
+            cur_bytes = 0;
+        }
+    }
+    if !cur.is_empty() {
+        groups.push(cur);
+    }
+    let suffix = if lane.name == "release" { String::new() } else { format!(":{}-profile", lane.name) };
+    let mut sig_counts: std::collections::BTreeMap<String, u32> = std::collections::BTreeMap::new();
+    let mut saturated: std::collections::BTreeSet<&'static str> = std::collections::BTreeSet::new();
+    let mut complete = true;
+    for (gi, idx) in groups.iter().enumerate() {
+        if budget.expired() {
+            complete = false;
+            break;
+        }
+        let batch = scratch.path().join(format!("{tag}-{gi}.batch"));
+        let slice: Vec<&[u8]> = idx.iter().map(|i| inputs[*i].bytes.as_slice()).collect();
+        if let Err(e) = child::write_batch(&batch, &slice) {
+            rep.inconclusive(&format!("{}: cannot write batch: {e}", codec.name));
+            continue;
+        }
+        let mut from = 0usize;
+        while from < idx.len() {
+            // once a crash signature has 6 witnesses, further inputs of that same input class are not run
+            let skip_rel: Vec<usize> = (from..idx.len()).filter(|k| saturated.contains(classes[idx[*k]])).collect();
+            st.add("inputs_skipped_crash_class_already_witnessed_6x", skip_rel.len() as u64);
+            let t_child = Instant::now();
+            let run = run_child_file(lane.bin, codec.name, &batch, idx.len(), from, &skip_rel, scratch, tag, Duration::from_secs(180));
+            st.add("children_spawned", 1);
+            if std::env::var_os("VERIF_C13_TIMING").is_some() {
+                eprintln!("TIMING child {:7.3}s {} [{}] n={} from={} done={} failure={:?}", t_child.elapsed().as_secs_f64(), codec.name, lane.name, idx.len(), from, run.done.iter().filter(|d| d.is_some()).count(), run.failure.as_ref().map(failure_key));
+            }
+            for (k, d) in run.done.iter().enumerate() {
+                let Some(d) = d else { continue };
+                let inp = &inputs[idx[k]];
+                rep.eval();
+                st.add(&format!("{}:calls", lane.name), 1);
+                st.add(&format!("inputs_{}", inp.origin), 1);
+                if d.ok {
+                    st.add("returned_ok", 1);
+                } else {
+                    st.add("returned_err", 1);
+                    st.add(&format!("err:{}", d.label), 1);
+                }
+                st.max("max_call_micros", d.micros);
+                st.max("max_peak_heap_bytes", d.peak);
+                if inp.origin == "valid" && !inp.bytes.is_empty() {
+                    st.max("max_alloc_ratio_valid_x100", d.peak * 100 / inp.bytes.len() as u64);
+                }
+                let mut key = codec.name.as_bytes().to_vec();
+                key.push(0);
+                key.extend_from_slice(&inp.bytes);
+                rep.nontrivial(&key);
+                if d.peak > threshold(inp.bytes.len()) {
+                    let class = classes[idx[k]];
+                    st.add("alloc_ratio_violations", 1);
+                    failed_idx.push(idx[k]);
+                    rep.violation(
+                        &format!("C13:{}:alloc-ratio:{class}{suffix}", codec.name),
+                        &format!(
+                            "{}: a call on a {}-byte {} input returned {} but held {} bytes of live heap at peak (limit 1 MiB + 256 x len = {}); input head {}",
+                            codec.name,
+                            inp.bytes.len(),
+                            inp.origin,
+                            if d.ok { "Ok" } else { "Err" },
+                            d.peak,
+                            threshold(inp.bytes.len()),
+                            hex(&inp.bytes[..inp.bytes.len().min(48)])
+                        ),
+                        json!({"mode": "c13", "decoder": codec.name, "lane": lane.name, "failure": "alloc-ratio", "class": class, "inputs_hex": [hex(&inp.bytes)]}),
+                    );
+                }
+                if rep.wants_sample() && idx[k] % 397 == 11 {
+                    rep.sample(json!({"decoder": codec.name, "lane": lane.name, "origin": inp.origin, "len": inp.bytes.len(), "head_hex": hex(&inp.bytes[..inp.bytes.len().min(32)]), "result": if d.ok {"ok".to_owned()} else {format!("err:{}", d.label)}, "peak_heap": d.peak, "micros": d.micros}));
+                }
+            }
+            let Some(failure) = run.failure else { break };
+            match (&failure, run.crashed_at) {
+                (Failure::Harness(why), at) => {
+                    rep.inconclusive(&format!("{} [{}]: child harness error: {}", codec.name, lane.name, why.chars().take(160).collect::<String>()));
+                    match at {
+                        Some(k) => from = k + 1,
+                        None => break,
+                    }
+                }
+                (Failure::Watchdog, at) => {
+                    rep.inconclusive(&format!("{} [{}]: wall-clock watchdog (180 s per child) fired - no verdict for the input in flight", codec.name, lane.name));
+                    st.add("watchdog_kills", 1);
+                    match at {
+                        Some(k) => from = k + 1,
+                        None => break,
+                    }
+                }
+                (_, None) => break,
+                (_, Some(k)) => {
+                    let gidx = idx[k];
+                    let inp = &inputs[gidx];
+                    let fkey = failure_key(&failure);
+                    st.add(&format!("crash:{}", fkey.split(':').next().unwrap_or("?")), 1);
+                    failed_idx.push(gidx);
+                    rep.eval();
+                    let class = classes[gidx];
+                    let sig = format!("C13:{}:{fkey}:{class}{suffix}", codec.name);
+                    let seen = sig_counts.entry(sig.clone()).or_insert(0);
+                    *seen += 1;
+                    if *seen >= 6 && class != "other" && class != "input" {
+                        saturated.insert(class);
+                    }
+                    let mut replay_inputs = vec![hex(&inp.bytes)];
+                    let mut confirmed = true;
+                    // pin the first three witnesses of a signature to the single input in a fresh child
+                    if *seen <= 3 {
+                        let solo = run_child(lane.bin, codec.name, &[inp.bytes.as_slice()], scratch, &format!("{tag}s"), Duration::from_secs(120));
+                        st.add("children_spawned", 1);
+                        let same = solo.failure.as_ref().map(failure_key) == Some(fkey.clone());
+                        if !same {
+                            // state-dependent: find the shortest suffix of the already-run prefix that still crashes
+                            confirmed = false;
+                            let crashes = |j: usize| -> bool {
+                                let sl: Vec<&[u8]> = idx[j..=k].iter().map(|i| inputs[*i].bytes.as_slice()).collect();
+                                let r = run_child(lane.bin, codec.name, &sl, scratch, &format!("{tag}b"), Duration::from_secs(120));
+                                r.failure.as_ref().map(failure_key) == Some(fkey.clone())
+                            };
+                            if crashes(0) {
+                                let (mut lo, mut hi) = (0usize, k);
+                                while lo < hi {
+                                    let mid = (lo + hi + 1) / 2;
+                                    if crashes(mid) {
+                                        lo = mid;
+                                    } else {
+                                        hi = mid - 1;
+                                    }
+                                }
+                                replay_inputs = idx[lo..=k].iter().map(|i| hex(&inputs[*i].bytes)).collect();
+                                confirmed = true;
+                                st.add("state_dependent_crashes", 1);
+                            }
+                        }
+                    }
+                    if confirmed {
+                        let detail = match &failure {
+                            Failure::AllocAbort(n) => format!("allocation request of {n} bytes (live heap would exceed 2 GiB) => allocation-failure abort"),
+                            Failure::StackOverflow => "stack overflow (8 MiB decode thread) => SIGABRT".to_owned(),
+                            Failure::Panic(s) => format!("panic at {s} => exit 101"),
+                            other => format!("{other:?}"),
+                        };
+                        rep.violation(
+                            &sig,
+                            &format!(
+                                "{} [{} build]: {} on a {}-byte {} input (class {class}); input head {}; stderr tail: {}",
+                                codec.name,
+                                lane.name,
+                                detail,
+                                inp.bytes.len(),
+                                inp.origin,
+                                hex(&inp.bytes[..inp.bytes.len().min(48)]),
+                                run.stderr_tail.lines().rev().take(3).collect::<Vec<_>>().join(" | ").chars().take(300).collect::<String>()
+                            ),
+                            json!({"mode": "c13", "decoder": codec.name, "lane": lane.name, "failure": fkey, "class": class, "origin": inp.origin, "inputs_hex": replay_inputs}),
+                        );
+                    } else {
+                        rep.inconclusive(&format!("{} [{}]: a child died ({fkey}) but neither the single input nor the batch prefix reproduces it", codec.name, lane.name));
+                    }
+                    from = k + 1;
+                }
+            }
+        }
+        let _ = std::fs::remove_file(&batch);
+    }
+    complete
 }
 
 fn replay(args: &Args, path: &Path, codecs: &[Codec]) -> i32 {
@@ -768,10 +834,10 @@ fn lane_bin(name: &str) -> Option<PathBuf> {
 
 pub fn run(args: &Args, all: Vec<Codec>) -> i32 {
     let filter = args.extra.get("codec").cloned();
-    let codecs: Vec<Codec> = all.into_iter().filter(|c| filter.as_ref().map_or(true, |f| c.name.contains(f.as_str()))).collect();
     if let Some(p) = &args.replay {
-        return replay(args, p, &codecs);
+        return replay(args, p, &all);
     }
+    let codecs: Vec<Codec> = all.into_iter().filter(|c| c.in_c13 && filter.as_ref().map_or(true, |f| c.name.contains(f.as_str()))).collect();
     let mut rep = Report::new(
         args,
         "exploration",
@@ -791,63 +857,70 @@ pub fn run(args: &Args, all: Vec<Codec>) -> i32 {
     }
     // corpus (parent side; needs the kernel for request generators that cite the real worldline)
     let _ = crate::wasm::ensure_kernel();
-    struct Job {
-        ci: usize,
-        lo: usize,
-        hi: usize,
-        crafted_only: bool,
-    }
     let mut corpora: Vec<Vec<Input>> = Vec::new();
-    let mut jobs: Vec<Job> = Vec::new();
-    for (ci, c) in codecs.iter().enumerate() {
+    for c in &codecs {
         let (inputs, refusals) = build_corpus(c, args);
         if refusals > 0 {
             let mut st = stats::Local::new(c.name);
             st.add("generator_refusals", refusals);
         }
-        // batches: ≤ 256 inputs and ≤ 6 MiB
-        let mut lo = 0;
-        let mut bytes = 0usize;
-        for (i, inp) in inputs.iter().enumerate() {
-            bytes += inp.bytes.len();
-            if i - lo + 1 >= 256 || bytes >= 6 << 20 {
-                jobs.push(Job { ci, lo, hi: i + 1, crafted_only: inputs[lo..=i].iter().all(|x| x.origin == "crafted") });
-                lo = i + 1;
-                bytes = 0;
-            }
-        }
-        if lo < inputs.len() {
-            jobs.push(Job { ci, lo, hi: inputs.len(), crafted_only: inputs[lo..].iter().all(|x| x.origin == "crafted") });
-        }
         corpora.push(inputs);
     }
-    // spread decoders across the shard order so a budget cut does not starve the last ones
-    let mut order: Vec<usize> = (0..jobs.len()).collect();
-    order.sort_by_key(|j| (jobs[*j].lo / 256, jobs[*j].ci));
+    // Two passes so that a budget cut never starves a decoder: pass 0 = every decoder's valid and crafted
+    // inputs plus the first slice of each other origin (and the dev lane); pass 1 = the rest.
+    let priority: Vec<Vec<bool>> = corpora
+        .iter()
+        .map(|inputs| {
+            let mut seen: std::collections::BTreeMap<&'static str, usize> = std::collections::BTreeMap::new();
+            inputs
+                .iter()
+                .map(|i| {
+                    let n = seen.entry(i.origin).or_insert(0);
+                    *n += 1;
+                    match i.origin {
+                        "valid" | "crafted" => true,
+                        "mutated" => *n <= 150,
+                        "truncated" => *n <= 150,
+                        _ => *n <= 80,
+                    }
+                })
+                .collect()
+        })
+        .collect();
+    let mut order: Vec<(usize, usize)> = Vec::new();
+    for pass in 0..2 {
+        let mut o: Vec<usize> = (0..codecs.len()).collect();
+        // heaviest first within a pass (kernel-backed entry points, then by corpus bytes)
+        o.sort_by_key(|i| std::cmp::Reverse((codecs[*i].needs_kernel, corpora[*i].iter().map(|x| x.bytes.len()).sum::<usize>())));
+        order.extend(o.into_iter().map(|i| (pass, i)));
+    }
     let complete = std::sync::atomic::AtomicBool::new(true);
     let scratch = Scratch::new("c13");
     run_shards(&mut rep, args.jobs, order.len(), |s, rep| {
-        let job = &jobs[order[s]];
-        let codec = &codecs[job.ci];
+        let (pass, ci) = order[s];
+        let codec = &codecs[ci];
         if budget.expired() {
             complete.store(false, std::sync::atomic::Ordering::Relaxed);
             return;
         }
         let mut st = stats::Local::new(codec.name);
-        let inputs = &corpora[job.ci][job.lo..job.hi];
+        let inputs = &corpora[ci];
+        let not_this_pass: Vec<usize> = (0..inputs.len()).filter(|i| priority[ci][*i] != (pass == 0)).collect();
         let mut failed: Vec<usize> = Vec::new();
         let lane = Lane { name: "release", bin: &self_bin };
-        process_batch(codec, &lane, inputs, &scratch, &format!("j{s}"), rep, &mut st, &mut failed, &[]);
-        if let Some(dev) = &dev_bin {
-            // the dev profile (debug assertions + overflow checks) sees a smaller batch: all crafted
-            // inputs, and every fourth of the others; inputs that already failed in release are skipped
-            let mut skip: Vec<usize> = failed.clone();
-            if !job.crafted_only {
-                skip.extend((0..inputs.len()).filter(|i| inputs[*i].origin != "crafted" && inputs[*i].origin != "valid" && (i + s) % 4 != 0));
-            }
+        if !process_decoder(codec, &lane, inputs, &scratch, &format!("d{s}"), rep, &mut st, &mut failed, &not_this_pass, &budget) {
+            complete.store(false, std::sync::atomic::Ordering::Relaxed);
+        }
+        if let (Some(dev), 0) = (&dev_bin, pass) {
+            // the dev profile (debug assertions + overflow checks) sees the smaller pass-0 batch;
+            // inputs that already failed in release are skipped
+            let mut skip: Vec<usize> = not_this_pass.clone();
+            skip.extend(failed.iter().copied());
             let lane = Lane { name: "dev", bin: dev };
             let mut failed_dev = Vec::new();
-            process_batch(codec, &lane, inputs, &scratch, &format!("j{s}d"), rep, &mut st, &mut failed_dev, &skip);
+            if !process_decoder(codec, &lane, inputs, &scratch, &format!("d{s}v"), rep, &mut st, &mut failed_dev, &skip, &budget) {
+                complete.store(false, std::sync::atomic::Ordering::Relaxed);
+            }
         }
     });
     if !complete.load(std::sync::atomic::Ordering::Relaxed) {
